@@ -32,13 +32,14 @@ class ExcModel(object):
         handler-named ancestor."""
         self.repo = repo
         names = set(ALWAYS) | set(extra_names)
+        self.origin = {}       # last name -> dotted origin resolved through the naming module's imports (standard library only)
         for f in repo.all_functions():
-            if scope is not None and not scope(f):
-                continue
             for n in walk_own(f.node):
                 if isinstance(n, ast.ExceptHandler) and n.type is not None:
                     for t in (n.type.elts if isinstance(n.type, ast.Tuple) else [n.type]):
-                        names.add(last_name(t))
+                        self._note_origin(t, f.module)
+                        if scope is None or scope(f):
+                            names.add(last_name(t))
         names.discard(None)
         self.parents = {}
         for nm in sorted(names):
@@ -51,6 +52,49 @@ class ExcModel(object):
         self.atoms = list(self.names)
 
     # -------------------------------------------------------------- hierarchy
+    def _note_origin(self, t, module):
+        ln = last_name(t)
+        if ln is None or ln in self.origin:
+            return
+        dotted = None
+        if isinstance(t, ast.Name):
+            dotted = module.imports.get(t.id)
+        elif isinstance(t, ast.Attribute):
+            parts = []
+            e = t
+            while isinstance(e, ast.Attribute):
+                parts.append(e.attr)
+                e = e.value
+            if isinstance(e, ast.Name) and e.id in module.imports:
+                dotted = '.'.join([module.imports[e.id]] + list(reversed(parts)))
+        if dotted:
+            self.origin[ln] = dotted
+
+    def _stdlib_class(self, nm):
+        """the exception class `nm` when it was imported from the standard library (hierarchy read from the analyser's own
+        interpreter: no code of the analysed package is imported)"""
+        import importlib
+        import sys
+        dotted = self.origin.get(nm)
+        if not dotted or '.' not in dotted:
+            return None
+        top = dotted.split('.')[0]
+        if top not in getattr(sys, 'stdlib_module_names', ()):
+            return None
+        parts = dotted.split('.')
+        for i in range(len(parts) - 1, 0, -1):
+            try:
+                obj = importlib.import_module('.'.join(parts[:i]))
+            except Exception:
+                continue
+            try:
+                for p in parts[i:]:
+                    obj = getattr(obj, p)
+            except AttributeError:
+                return None
+            return obj if isinstance(obj, type) and issubclass(obj, BaseException) else None
+        return None
+
     def _is_exception_class(self, nm):
         c = self.repo.find_class(nm) if nm in self.repo.classes else None
         if c is not None:
@@ -75,7 +119,7 @@ class ExcModel(object):
         bo = getattr(builtins, nm, None)
         if isinstance(bo, type) and issubclass(bo, BaseException):
             return True
-        return nm in KNOWN_LIB_EXC
+        return nm in KNOWN_LIB_EXC or self._stdlib_class(nm) is not None
 
     def _parents(self, nm):
         c = self.repo.find_class(nm) if nm in self.repo.classes else None
@@ -83,6 +127,15 @@ class ExcModel(object):
             return [b.split('.')[-1] for b in c.base_names]
         if nm in KNOWN_LIB_EXC:
             return [KNOWN_LIB_EXC[nm]]
+        sc = self._stdlib_class(nm)
+        if sc is not None:
+            # nearest builtin ancestors: intermediate library classes are skipped (they are not named by the package)
+            out = []
+            for b in sc.__mro__[1:]:
+                if getattr(builtins, b.__name__, None) is b:
+                    out.append(b.__name__)
+                    break
+            return out or ['Exception']
         bo = getattr(builtins, nm, None)
         if isinstance(bo, type) and issubclass(bo, BaseException):
             return [b.__name__ for b in bo.__bases__ if issubclass(b, BaseException)]
